@@ -30,9 +30,10 @@ type Dictionary struct {
 var Dict = &Dictionary{}
 
 var (
-	reStr = regexp.MustCompile(`"((?:[^"\\\n]|\\.)*)"`)
-	reNum = regexp.MustCompile(`\b(0[xX][0-9a-fA-F_]+|[0-9][0-9_]*)\b`)
-	reEnv = regexp.MustCompile(`os\.(?:Getenv|LookupEnv)\(\s*"([^"]+)"`)
+	reStr  = regexp.MustCompile(`"((?:[^"\\\n]|\\.)*)"`)
+	reNum  = regexp.MustCompile(`\b(0[xX][0-9a-fA-F_]+|[0-9][0-9_]*)\b`)
+	reEnv  = regexp.MustCompile(`os\.(?:Getenv|LookupEnv)\(\s*"([^"]+)"`)
+	reCaps = regexp.MustCompile(`"([A-Z][A-Z0-9_]{2,40})"`)
 )
 
 func repoDir() string {
@@ -61,6 +62,12 @@ func HarvestDictionary(root string) *Dictionary {
 		b, err := os.ReadFile(path)
 		if err != nil {
 			return nil
+		}
+		readsEnv := strings.Contains(string(b), "os.Getenv") || strings.Contains(string(b), "os.LookupEnv") || strings.Contains(string(b), "os.Environ")
+		if readsEnv { // names may be held in constants: every ALL_CAPS literal of a file that reads the environment is a candidate
+			for _, m := range reCaps.FindAllStringSubmatch(string(b), -1) {
+				envs[m[1]] = true
+			}
 		}
 		for _, line := range strings.Split(string(b), "\n") {
 			t := strings.TrimSpace(line)
